@@ -678,13 +678,51 @@ def c06(ctx):
     scen = make_scenarios(ctx, cases, n, rng, {"odd", "imports-only"})
     decisions.update(model_decisions(ctx, scen))
     run_scenarios(ctx, scen, [[], ["print"], ["diff"], ["print", "si"], ["sg"]], {"unmatched", "stdout", "exit"}, post)
+    triples = []
+    for sc in scen:
+        for rel, src in sc.files.items():
+            st, applies = decisions.get(sc.id + "|" + rel, ("?", True))
+            if st == "ok" and not applies and isinstance(src, str):
+                triples.append((sc.patches, src, None))
+    api_vs_cli(ctx, triples[: (80 if ctx.tier == "quick" else 2000)], "C06 (no change applies: the API must return the input bytes)")
+
+def api_vs_cli(ctx, triples, what):
+    """triples: (patches, src, expected bytes or None for 'input unchanged')"""
+    cases = [{"id": f"a{i}", "patches": p, "src": s} for i, (p, s, e) in enumerate(triples) if len(p) == 1]
+    exp = {f"a{i}": e for i, (p, s, e) in enumerate(triples)}
+    byid = {c["id"]: c for c in cases}
+    for o in run_api(ctx, cases, rep=0):
+        ctx.evaluations += 1
+        ctx.count("api_vs_cli")
+        c = byid[o["id"]]
+        if o.get("parse_err") or o.get("panic"):
+            continue
+        want = exp[o["id"]]
+        if want is None:
+            want = c["src"]
+        if o.get("err"):
+            ctx.violation(f"{what}: the library API fails ({o['err'][:150]}) where the command line succeeds", {"input": {"patches": c["patches"], "src": c["src"]}})
+        elif o["out"] != want:
+            ctx.violation(f"{what}: the bytes returned by the library API differ from the command line's", {"input": {"patches": c["patches"], "src": c["src"]}, "api": o["out"][-600:], "cli": want[-600:]})
 
 @prop("C12")
 def c12(ctx):
+    triples = []
+    def post(ctx, sc, opts, infos, pred, obs, work):
+        if opts == ["print"]:
+            for i in infos:
+                if i["apply"][0] == "ok" and i["content"] is not None and not i.get("generated"):
+                    b = i["apply"][1]
+                    triples.append((sc.patches, i["content"].decode("utf-8", "surrogateescape"), b.decode("utf-8", "surrogateescape") if isinstance(b, bytes) else b))
+        return []
+    c12_body(ctx, post)
+    api_vs_cli(ctx, triples[: (60 if ctx.tier == "quick" else 2000)], "C12")
+
+def c12_body(ctx, post):
     cli_family(ctx, {"odd", "generated"},
                [[], ["print"], ["diff"], ["diff", "v"], ["print", "si"], ["diff", "sg"], ["si"], ["print", "sg", "si"], ["v"],
                 ["diff", "print"], ["diff", "print", "v", "sg"], ["diff", "print", "si"]],
-               {"write", "stdout", "desc"}, 25, 500)
+               {"write", "stdout", "desc"}, 25, 500, post=post)
 
 def matching_cases(ctx, cases, want, rng):
     """cases whose patch rewrites their own source (observed by a solo run)"""
@@ -1924,6 +1962,8 @@ def sig_paren_minus(sig, what, payload):
             if l.startswith("+") or not l:
                 continue
             code = l[1:]
+            if re.search(r"\)\s*\(\)\s*\{", code):      # an empty result list "()", which go/printer drops
+                return True
             if re.search(r"(^|[\s(\[{,=:+\-*/%<>!&|^])\((?!\))", code) and not re.match(r"^\s*(func\b|\}?\s*else|import\b|var \(|const \(|type \()", code.strip()):
                 return True
     return False
